@@ -111,13 +111,39 @@ def _report(ctx, what_prefix, case_id, devs, obj):
     ctx.violation("%s case %s%s" % (what_prefix, case_id, (" (would be explained by Dev=%s, which is not listed open)" % devs) if devs else ""), obj)
 
 
-def _validate_trace(ctx, name, records, work):
-    """Trace_Proxy.tla over observation records; returns (checked, nontrivial, rejected list)"""
-    path = os.path.join(work, name + ".ndjson")
+def _validate_trace(ctx, name, records, work, depth=0, budget=None):
+    """Trace_Proxy.tla over observation records; returns (checked, nontrivial, rejected list).
+    If TLC cannot evaluate the file (an evaluation error, a record of a shape the trace spec is not total over) the
+    records are validated in halves, down to single records: a record TLC cannot evaluate is reported as spec drift
+    (it is neither accepted nor a finding), everything else is still judged. Only when that happens for many records
+    (the tooling itself is broken) does it become a tool error."""
+    budget = budget if budget is not None else {"unevaluable": 0}
+    try:
+        return _validate_trace_once(ctx, name if depth == 0 else "%s/%d" % (name, depth), records, work)
+    except vlib.ToolError as e:
+        if len(records) <= 1:
+            budget["unevaluable"] += 1
+            if budget["unevaluable"] > 24:
+                raise
+            ctx.drift("C09 trace " + name, "Trace_Proxy could not evaluate a recorded call (reported, not judged): %s" % str(e)[-300:],
+                      {"kind": "proxy-trace-unevaluable", "record": records[0] if records else None})
+            return len(records), 0, []
+        vlib.log("Trace_Proxy failed on %d records of %s; validating them in halves" % (len(records), name))
+        mid = len(records) // 2
+        a = _validate_trace(ctx, name, records[:mid], work, depth + 1, budget)
+        b = _validate_trace(ctx, name, records[mid:], work, depth + 1, budget)
+        return a[0] + b[0], a[1] + b[1], a[2] + b[2]
+
+
+def _validate_trace_once(ctx, name, records, work):
+    path = os.path.join(work, name.replace("/", "-") + ".ndjson")
     keep = ("id", "entry", "req", "route", "connected", "noread", "segs", "term", "got", "late", "seenok", "seen")
     vlib.write_lines(path, [{k: r[k] for k in keep} for r in records])
-    t = _run_tlc("Trace_Proxy.tla", "Trace_Proxy.cfg", D, workers=1, env={"TRACE": path}, timeout=1200, work_id="c09", deque=True)
-    ctx.add_tlc("trace validation: %s (%d records)" % (name, len(records)), t)
+    try:
+        t = _run_tlc("Trace_Proxy.tla", "Trace_Proxy.cfg", D, workers=1, env={"TRACE": path}, timeout=1200, work_id="c09", deque=True)
+    except vlib.ToolError:
+        os.remove(path)
+        raise
     os.remove(path)
     summ = [p for p in t.prints if isinstance(p, dict) and "checked" in p]
     if not summ or summ[-1]["checked"] != len(records):
@@ -125,15 +151,54 @@ def _validate_trace(ctx, name, records, work):
     s = summ[-1]
     if t.violation is not None:
         raise vlib.ToolError("Trace_Proxy failed on %s: %s" % (name, t.out[-1500:]))
+    ctx.add_tlc("trace validation: %s (%d records)" % (name, len(records)), t)
     return s["checked"], s["nontrivial"], s["rejected"]
 
 
 def _validate_lb(name, records, work, ctx=None):
+    """all groups at once; if TLC cannot evaluate the file, group by group: a group TLC cannot evaluate is spec drift"""
+    try:
+        return _validate_lb_once(name, records, work, ctx)
+    except vlib.ToolError as e:
+        groups, cur = [], None
+        for x in records:
+            if x["k"] == "cfg":
+                cur = [x]
+                groups.append(cur)
+            elif cur is not None:
+                cur.append(x)
+        if len(groups) <= 1:
+            raise
+        vlib.log("Trace_LoadBalancer failed on %s (%s); validating %d groups one by one" % (name, str(e)[-200:], len(groups)))
+        ok, lin, bad, unevaluable = True, 0, [], 0
+        for gi, g in enumerate(groups, 1):
+            try:
+                a, n, bc = _validate_lb_once("%s-g%d" % (name, gi), g, work, None)
+            except vlib.ToolError as e2:
+                unevaluable += 1
+                if unevaluable > 8 or ctx is None:
+                    raise
+                ctx.drift("C09 balancer", "Trace_LoadBalancer could not evaluate group %d (reported, not judged): %s" % (gi, str(e2)[-300:]),
+                          {"kind": "balancer-unevaluable", "group": g[:50]})
+                lin += 1 if ok else 0
+                continue
+            if a and ok:
+                lin = gi
+            ok = ok and a
+            bad += [gi for _ in bc]
+        return ok, lin, bad
+
+
+def _validate_lb_once(name, records, work, ctx=None):
     """Trace_LoadBalancer.tla: accepted iff NotAccepted is violated. Returns (accepted, groups linearised, groups whose
     per-target counts are impossible for a strict rotation)"""
     path = os.path.join(work, name + ".ndjson")
     vlib.write_lines(path, records)
-    t = _run_tlc("Trace_LoadBalancer.tla", "Trace_LoadBalancer.cfg", D, workers=1, env={"TRACE": path}, timeout=900, work_id="c09", deque=True)
+    try:
+        t = _run_tlc("Trace_LoadBalancer.tla", "Trace_LoadBalancer.cfg", D, workers=1, env={"TRACE": path}, timeout=900, work_id="c09", deque=True)
+    except vlib.ToolError:
+        os.remove(path)
+        raise
     if ctx is not None:
         ctx.add_tlc("trace validation: %s (%d records)" % (name, len(records)), t)
     os.remove(path)
@@ -148,11 +213,22 @@ def _validate_lb(name, records, work, ctx=None):
 
 
 def run(tier, replay):
+    # a scratch directory of this run only: two C09 checks at the same time (another checkout through VERIF_REPO, a
+    # seed re-check) must not read, overwrite or delete each other's trace files
+    import shutil
+    work = os.path.join(vlib.workdir("C09"), "run-%d-%d" % (os.getpid(), int(time.time() * 1000) % 100000000))
+    os.makedirs(work, exist_ok=True)
+    try:
+        return _run(tier, replay, work)
+    finally:
+        shutil.rmtree(work, ignore_errors=True)
+
+
+def _run(tier, replay, work):
     ctx = Ctx("C09", tier, "model_checking")
     thorough = tier == "thorough"
     bindir = build_harness(["proxy"])
     proxy = os.path.join(bindir, "proxy")
-    work = vlib.workdir("C09")
 
     if replay:
         # re-run stored behaviours against the current code
